@@ -8,5 +8,5 @@ S=$(mktemp -d -t vsim-XXXXXX); trap 'rm -rf "$S"' EXIT
 cp -r "$HERE/sim/litmus" "$S/util/internal/vsim/litmus"
 # every stand-in package compiles and vets, whether or not the unchanged tree imports it (a stand-in
 # nobody imports today is only compiled when an edited tree starts to use the real package)
-(cd "$S/util" && go build -tags vsim_c19 ./internal/vsim/... && go vet -tags vsim_c19 ./internal/vsim/vsync ./internal/vsim/vatomic ./internal/vsim/vtime ./internal/vsim/vrand ./internal/vsim/vrand2 ./internal/vsim/vcontext ./internal/vsim/vchan ./internal/vsim/vrace ./internal/vsim/sched 2>&1 | grep -v "^#" | grep -v "possible misuse of unsafe.Pointer\|copylocks\|passes lock by value" | head -20) || { echo "selftest: a stand-in package does not build"; exit 2; }
+(cd "$S/util" && go build -tags vsim_c19 ./internal/vsim/... && go vet -tags vsim_c19 ./internal/vsim/vsync ./internal/vsim/vatomic ./internal/vsim/vtime ./internal/vsim/vrand ./internal/vsim/vrand2 ./internal/vsim/vcrand ./internal/vsim/vcontext ./internal/vsim/vchan ./internal/vsim/vrace ./internal/vsim/sched 2>&1 | grep -v "^#" | grep -v "possible misuse of unsafe.Pointer\|copylocks\|passes lock by value" | head -20) || { echo "selftest: a stand-in package does not build"; exit 2; }
 cd "$S/util" && go test -count=1 ${1:+-run "$1"} ${V:+-v} ./internal/vsim/litmus/
